@@ -18,6 +18,17 @@ sys.path.insert(0, os.path.join(os.path.dirname(os.path.abspath(__file__)), ".."
 import vlib
 from vlib import log
 
+MAX_VIOLATION_FILES = 40
+
+
+def report(chk, what, replay_obj, key=None):
+    """chk.violation, but a broken tree must not leave tens of thousands of replay files behind"""
+    if len(chk.violations) < MAX_VIOLATION_FILES:
+        chk.violation(what, replay_obj, key)
+    else:
+        chk.extra["violations_not_recorded"] = chk.extra.get("violations_not_recorded", 0) + 1
+
+
 SPECD = os.path.join(vlib.SPEC, "sample")
 U64MAX = (1 << 64) - 1
 REL_SPLIT = F(1, 10 ** 6)     # real (n, alpha) against TLC's rationals
@@ -150,7 +161,7 @@ def run_fixed(chk, rates, tier):
         chk.evaluations += 1
         chk.nontrivial.add(("fixed", c["rate"]))
         if viol:
-            chk.violation(viol, {"kind": "fixed", "case": c, "observed": o}, key="C12:decide")
+            report(chk, viol, {"kind": "fixed", "case": c, "observed": o}, key="C12:decide")
         else:
             chk.traces += 1
     chk.extra["decision_rows"] = n_rows
@@ -308,7 +319,7 @@ def run_emf(chk, rates, pow2, tier):
         nrows += len(o.get("rows", []))
         nsat += F(bits_f32(c["rate"])) < F(1, 1 << 63)
         if viol:
-            chk.violation(viol, {"kind": "emf", "case": c, "observed": o}, key="C12:weight")
+            report(chk, viol, {"kind": "emf", "case": c, "observed": o}, key="C12:weight")
         else:
             chk.traces += 1
             if drift:
@@ -418,7 +429,7 @@ def run_congress(chk, tier):
                        for p, m in zip(s0["after"], s1["after"]))
         calls += sum(len(s["calls"]) for s in o.get("steps", []))
         if viol:
-            chk.violation(viol, {"kind": "congress", "case": c, "observed": o}, key="C12:congress")
+            report(chk, viol, {"kind": "congress", "case": c, "observed": o}, key="C12:congress")
         else:
             chk.traces += 1
             if drift:
